@@ -189,7 +189,7 @@ def run(ctx):
     scn_file = ctx.path("c18", "scn.jsonl")
     with open(scn_file, "w") as f:
         for s in run_scns:
-            f.write(json.dumps({k: s[k] for k in ("id", "conf", "src", "tgt", "steps")}) + "\n")
+            f.write(json.dumps({k: s[k] for k in ("id", "conf", "src", "tgt", "steps", "page")}) + "\n")
 
     # 3. the real binary
     out = ctx.path("c18", "traces.jsonl")
@@ -245,7 +245,7 @@ def run(ctx):
         ev = r["event"] or {}
         what = "%s (trace %s, %s event %s)" % (detail, t["id"], ev.get("ev"), json.dumps(
             {k: ev[k] for k in ev if k not in ("tags", "repos")})[:300])
-        ctx.report(sig, what, {"scenario": {k: t["scenario"][k] for k in ("id", "conf", "src", "tgt", "steps")},
+        ctx.report(sig, what, {"scenario": {k: t["scenario"][k] for k in ("id", "conf", "src", "tgt", "steps", "page")},
                                "events": t["events"], "rejected_at": r["line"], "stderr": t["stderr"],
                                "cmd": "tools/check C18 --replay <this file>"})
 
@@ -280,8 +280,8 @@ def run(ctx):
         demos.append(t)
         # the backup written after the overwrite instead of before
         t, i = find(lambda t, i, e: e["ev"] == "tagput" and i + 1 < len(t["events"]) and t["events"][i + 1]["ev"] == "tagput"
-                    and (e["tag"].startswith("bak-") or e["tag"] == "old" or e["tag"].endswith("-old") or e["repo"].startswith("backups/"))
-                    and not t["events"][i + 1]["tag"].startswith("dt"))
+                    and e["tag"] == "bak-" + t["events"][i + 1]["tag"] and e["repo"] == t["events"][i + 1]["repo"]
+                    and e["reg"] == t["events"][i + 1]["reg"] and e["img"] != t["events"][i + 1]["img"])
         t["events"][i], t["events"][i + 1] = t["events"][i + 1], t["events"][i]
         t["id"] = "demo-backup-late"
         demos.append(t)
